@@ -13,7 +13,11 @@ for f in sorted(glob.glob("translator/*.py")):
     name = os.path.basename(f)[:-3]
     if name in ("__init__", "common"):
         continue
-    m = importlib.import_module("translator." + name)
+    try:
+        m = importlib.import_module("translator." + name)
+    except BaseException as e:
+        print("WARNING: translator", name, "does not import:", repr(e))
+        continue
     if hasattr(m, "translate"):
         trs.append(m.translate)
 fails = vlib.regen(trs)
@@ -25,11 +29,11 @@ print(log[-3000:])
 if not ok:
     print("WARNING: some coq files did not build; each check rebuilds and reports its own cone")
 for f in sorted(glob.glob("props/c*.py")):
-    m = importlib.import_module("props." + os.path.basename(f)[:-3])
-    if hasattr(m, "setup"):
-        try:
+    try:
+        m = importlib.import_module("props." + os.path.basename(f)[:-3])
+        if hasattr(m, "setup"):
             m.setup()
-        except Exception as e:
-            print("WARNING: setup of", f, "failed:", e)
+    except BaseException as e:
+        print("WARNING: setup of", f, "failed:", repr(e))
 print("setup ok")
 PY
